@@ -113,7 +113,7 @@ def build_image(plan):
     if plan["container"] != "xorpe":
         return plain, None
     x = plan["xor"]
-    raw, _ = builder.xorencode(plain, unhx(x["nonce"]), unhx(x["stub"]))
+    raw, _ = builder.xorencode(plain, unhx(x["nonce"]), unhx(x["stub"]), size_consistent=x.get("variant") != "marker")
     return raw, plain
 
 
